@@ -473,6 +473,37 @@ theorem C02_jumpoff_accepted_iff (c : Comp) (hr : Reachable c) (b : Nat) (t : Tr
     simp only [step, hj, hta, Jumper.act, he, hd, hnil, h1]
     simp [hl0]
 
+/-- `C02_three_consecutive_failures` with its side condition discharged: outside a jump-off (scheduled, started, won)
+    **every** athlete is out exactly at three consecutive failures or on retirement, read off the card -/
+theorem C02_out_iff_card (c : Comp) (hr : Reachable c) (j : Jumper) (hj : j ∈ c.jumpers)
+    (hph : c.phase = .scheduled ∨ c.phase = .started ∨ c.phase = .won) :
+    trailingX j.card.flatten ≤ 3 ∧
+    (j.eliminated = true ↔ (j.card.flatten.contains .r = true ∨ 3 ≤ trailingX j.card.flatten)) :=
+  C02_three_consecutive_failures c hr j hj ((limInv_reachable c hr).regular hph j hj)
+
+/-- once the competition is won, the athlete in first place may go on — accepted IFF the card allows it — -/
+theorem C02_trial_accepted_iff_won (c : Comp) (hr : Reachable c) (b : Nat) (t : Trial) (j : Jumper)
+    (hj : c.find b = some j) (hph : c.phase = .won) (hp : j.place = 1) :
+    (step c (.trial b t)).2 = .ok ↔
+      (c.heights ≠ [] ∧ j.card.flatten.contains .r = false ∧ trailingX j.card.flatten < 3 ∧
+        allX ((padCard j.card c.heights.length).getLast?.getD []) = true) :=
+  C02_trial_accepted_iff_allowed c hr b t j hj
+    ((limInv_reachable c hr).regular (Or.inr (Or.inr hph)) j (List.mem_of_find?_eq_some hj))
+    (by unfold trialAllowed; simp [hph, hp])
+
+/-- — and it is decided against everybody else: their calls are refused -/
+theorem C02_won_others_refused (c : Comp) (b : Nat) (t : Trial) (j : Jumper) (hj : c.find b = some j)
+    (hph : c.phase = .won) (hp : j.place ≠ 1) : (step c (.trial b t)).2 ≠ .ok := by
+  intro h
+  rcases C02_state_gate c b t j hj h with e | e | ⟨_, e⟩
+  · rw [hph] at e; cases e
+  · rw [hph] at e; cases e
+  · exact hp e
+
+/-- a won competition: the winner goes on alone, the other athlete is refused -/
+example : let c := runOps [.add 1, .add 2, .bar 105, .trial 1 .o, .trial 2 .x, .trial 2 .x, .trial 2 .x]
+    c.phase = .won ∧ (step c (.trial 2 .x)).2 = .rule := by decide +kernel
+
 /-- a jump-off in progress: both athletes re-instated with one attempt each -/
 example : (runOps [.add 1, .add 2, .bar 105, .trial 1 .x, .trial 1 .x, .trial 1 .x, .trial 2 .x, .trial 2 .x, .trial 2 .x]).jumpers.map
     (fun j => (j.roundLim, j.eliminated)) = [(1, false), (1, false)] := by decide +kernel
